@@ -1,4 +1,6 @@
 import Codec.Codec
+import Pure.Label
+import Pure.Hex
 /-! C08/C09 probe, leaves: the `char` codec inside the combinator framework of `Codec.lean`, then the codecs of
     `Label` (tag + char / u64 / eight chars) and `Hex` (tag + byte vector / eight bytes + length), each with its
     round trip and strictness — the two hypotheses `decode_encode` and `truncated_rejected` ask for. -/
@@ -141,11 +143,7 @@ theorem bind_ok {α β} (p : Parser α) (f : α → Parser β) (w : List UInt8) 
 
 /-! ### Label -/
 
-inductive Label where
-  | greek (c : Char)
-  | alpha (n : Nat)
-  | str (a : List Char)          -- `[char; 8]`
-deriving DecidableEq
+abbrev Label := Lb.Label
 
 def encLabel : Label → List UInt8
   | .greek c => encLE 4 0 ++ encChar c
@@ -201,10 +199,7 @@ theorem rt_label : RT encLabel decLabel wfLabel := by
 
 /-! ### Hex -/
 
-inductive Hex where
-  | vector (v : List UInt8)
-  | inline (a : List UInt8) (len : Nat)       -- `Bytes([u8; 8], usize)`
-deriving DecidableEq
+abbrev Hex := Hx.Hex
 
 def byteP : Parser UInt8 := fun
   | [] => .error .eof
